@@ -25,6 +25,10 @@ func runC10(c *Ctx, tier string) {
 	c10RegistryReadOnly(c, r, e)
 	c10WhoMayRegister(c, r)
 	c10Locks(c, r)
+	// options are stored per instance: every Configure() hands out memory inside the
+	// fresh instance (or set by its constructor to memory allocated for it), never a
+	// structure shared between instances, runs or registries (C11's rule)
+	c11Configurables(c, r, BuildCensus(c))
 	r.Finish()
 }
 
